@@ -112,6 +112,12 @@ fn check_real(key: &str, n: usize, a: &[f64], exact_det: Option<i64>, desc: Valu
                 }
             }
             let exact_run = (0..n.saturating_sub(1)).all(|k| is_pow2(lu[(k, k)]));
+            // a pivot that is exactly zero after the column search means the whole column was zero at that stage:
+            // that is singular in the arithmetic actually carried out, whatever happened before
+            if let Some(k) = (0..n).find(|&k| lu[(k, k)] == 0.0) {
+                viol!("singular-accepted", format!("factorisation accepted although pivot {} of U is exactly zero", k));
+                return out;
+            }
             if let Some(d) = exact_det {
                 if d == 0 {
                     if exact_run {
@@ -225,6 +231,10 @@ fn check_complex(key: &str, n: usize, ar: &[f64], ai: &[f64], exact_det: Option<
                 }
             }
             let exact_run = (0..n.saturating_sub(1)).all(|k| is_pow2(lr[(k, k)] * lr[(k, k)] + li[(k, k)] * li[(k, k)]));
+            if let Some(k) = (0..n).find(|&k| lr[(k, k)] == 0.0 && li[(k, k)] == 0.0) {
+                viol!("singular-accepted", format!("complex factorisation accepted although pivot {} of U is exactly zero", k));
+                return out;
+            }
             if let Some(d) = exact_det {
                 if d == (0, 0) {
                     if exact_run {
